@@ -85,7 +85,7 @@ func init() {
 	core.Register(&core.Rule{
 		Name: "R-ASMSTORE",
 		Doc: "In every TEXT block of the assembly sources, each instruction whose destination operand is memory writes only to the routine's own stack frame, a result slot (name+off(FP)), or an address derived (MOV/LEA/ADD chains, joined at labels) from a Go parameter that is a non-byte slice (an output buffer); never to an address derived from a []byte/string/pointer parameter (haystack, masks) and never to an address of unknown provenance. Necessary for C07/C18 (no stray write, haystack unmodified). Also yields the write summaries of bodiless functions used by R-SHARED/R-RO. Over-reads are not decided.",
-		Min: 14,
+		Min: 14, ThoroughArchs: []string{}, // all assembly sources are amd64-only
 		Run: func(p *core.Prog) *core.RuleResult {
 			ai := loadAsm(p)
 			res := &core.RuleResult{}
